@@ -240,6 +240,9 @@ func (s *loop) addObj(k lKind) *lObj {
 		al.Close()
 		o.conn = nc.(*shimnet.SimConn)
 		var rw io.ReadWriter = o.conn
+		if w.Chance(1, 3) {
+			shimnet.ShortWrites = true // the adapter's resume path for a writer that accepts a prefix
+		}
 		if w.Chance(1, 2) {
 			// an io.Reader may return the last bytes together with the error that follows them; tls.Conn
 			// (what the websocket client adapts for wss://) does so when close_notify is queued behind data
